@@ -534,6 +534,16 @@ class Payload:
 
         return Payload(ans)
 
+    def __itruediv__(self, other):
+        """__itruediv__"""
+
+        if isinstance(other, Payload):
+            self.value = self.value / other.value
+        else:
+            self.value = self.value / other
+
+        return self
+
     def __rmul__(self, other):
         """__rmul__"""
 
